@@ -164,6 +164,11 @@ def c15_configs(thorough):
         out.append(("dfs", dict(driver=d, budget={"cancel": 1},
                                 callers=[("seq", ["dtq", ("sleep", 0.01), "cfg"], {}), ("send", "dtq", {})]), n))
         out.append(("dfs", dict(driver=d, budget={"noise": 2}, callers=[("send", "dtq", {}), ("send", "qn", {})]), n))
+        # a sequence whose clean-up raises when it is closed half-way (cancelled, or the gateway lost under it):
+        # the transaction lock must be free afterwards all the same, and the queued callers must complete
+        out.append(("dfs", dict(driver=d, budget={"cancel": 1},
+                                callers=[("seq", ["dtq", ("sleep", 0.01), "cfg"], {"cleanup_raises": True}),
+                                         ("send", "dtq", {}), ("send", "q", {})]), n))
         if d in ("luba", "sci"):
             # the gateway's confirmation / answer may arrive LATER than the driver's timeout (timers may fire while
             # a report is still on its way): the wire must still hold whole units, device-type frames adjacent
